@@ -2,6 +2,7 @@
 import re
 from sa.rules import *
 from rules.netcode_common import *
+import rules.shared as shared
 
 KEYCLASS = {"server_to_client_key": "s2c", "send_key": "s2c", "client_to_server_key": "c2s", "receive_key": "c2s", "challenge_key": "challenge", "connect_key": "token", "private_key": "token"}
 
@@ -17,12 +18,12 @@ def last_field(o):
 def rules(t):
     out = []
     # a1 packet AAD
-    r = RuleResult("C17.a1", "packet AAD = version | protocol id | prefix byte; prefix passed = byte on the wire", floor=2)
+    r = RuleResult("C17.a1", "packet AAD = version | protocol id | prefix byte (disjoint ranges covering the whole buffer); prefix passed = byte on the wire", floor=5)
     g = t.fn("renetcode::packet::get_additional_data")
     stores = [fmt(t.stored(s)) if s.node["k"] == "assign" else "" for s in t.sites(g)]
     cps = [t.args(c) for c in t.calls(r"copy_from_slice$", g)]
     srcs = " ".join(fmt(a[1]) for a in cps) + " " + " ".join(stores)
-    if not ("NETCODE_VERSION_INFO" in srcs and "protocol_id" in srcs and re.search(r"P1\(prefix\)", srcs)): r.bad("coverage", None, f"AAD does not cover version, protocol id and prefix: {srcs[:120]}")
+    shared.aad_layout(t, g, r, {"version": r"NETCODE_VERSION_INFO", "protocol id": r"to_le_bytes\(P\d\(protocol_id\)\)", "prefix byte": r"^P\d\(prefix\)$"})
     enc = t.fn("packet::Packet::<'a>::encode"); dec = t.fn("packet::Packet::<'a>::decode")
     for f in (enc, dec):
         for c in t.calls(r"packet::get_additional_data$", f):
@@ -37,10 +38,10 @@ def rules(t):
             if not is_protocol(t.arg(c, 1)): r.bad("protocol", c, "AAD protocol id is not the caller's protocol id parameter")
     out.append(r)
 
-    r = RuleResult("C17.a2", "token AAD = version | protocol id | expiry, same parameters in encode and decode", floor=2)
+    r = RuleResult("C17.a2", "token AAD = version | protocol id | expiry (disjoint ranges covering the whole buffer), same parameters in encode and decode", floor=5)
     g = t.fn("renetcode::token::get_additional_data")
     srcs = " ".join(fmt(t.arg(c, 1)) for c in t.calls(r"copy_from_slice$", g))
-    if not ("NETCODE_VERSION_INFO" in srcs and "protocol_id" in srcs and "expire_timestamp" in srcs): r.bad("coverage", None, "token AAD does not cover version, protocol id and expiry")
+    shared.aad_layout(t, g, r, {"version": r"NETCODE_VERSION_INFO", "protocol id": r"to_le_bytes\(P\d\(protocol_id\)\)", "expire timestamp": r"to_le_bytes\(P\d\(expire_timestamp\)\)"})
     for name in ("PrivateConnectToken::encode", "PrivateConnectToken::decode"):
         f = t.fn(name)
         for c in t.calls(r"token::get_additional_data$", f):
